@@ -5,7 +5,6 @@ import (
 	"context"
 	"encoding/json"
 	"fmt"
-	"io"
 	"log"
 	"net"
 	"os"
@@ -127,7 +126,7 @@ func startRT(t *testing.T, cfg srvCfg) *rtServer {
 	iface := &net.Interface{Index: 1, Name: name, HardwareAddr: net.HardwareAddr(cfg.selfMAC), MTU: 1500}
 	libif.VerifFake(name).Addr = ip4(cfg.selfIP)
 	ctx, cancel := context.WithCancel(context.Background())
-	srv, err := server.New(ctx, log.New(io.Discard, "", 0), iface, cfg.proto())
+	srv, err := server.New(ctx, log.New(logSink{}, "", 0), iface, cfg.proto())
 	if err != nil {
 		cancel()
 		t.Fatalf("server.New: %v", err)
